@@ -9,6 +9,9 @@ FAMS = [("Sat3", {}), ("Bool", {}), ("RatU", {"eps_acyclic": True}), ("Sat2", {}
 
 
 def generate(rng, tier, shard, nshards):
+    for M in aops.tlc_automata(shard, nshards, every=2 if tier == "quick" else 1):     # (C) the TLC-enumerated family
+        for fn in ("reverse", "star", "kleene_plus"):
+            yield aops.event("wop", {"sr": "Sat3", "A": M, "sigma": ["a"], "L": 3, "fn": fn}, site=f"WFSA.{fn}", feat="tlc-family")
     n = 24 if tier == "quick" else 240
     L = 3 if tier == "quick" else 4
     sig = ["a", "b"]
@@ -111,7 +114,9 @@ def selftests(events, rng):
 
 
 def run(report, tier, seed):
-    standard_run(report, "C12", MODULE, tier, seed, selftests,
+    from common import automata_core
+    afam = automata_core(report, 2)
+    standard_run(report, "C12", MODULE, tier, seed, selftests, extra_env={"VERIF_AFAMILY": afam},
                  sample_keys=("op", "fn", "sr", "A", "B", "site"), trivial=("plain",),
                  rule=("random operand pairs (epsilon arcs, several initial/final states, initial state final) over "
                        "Sat3/Sat2/Bool and exact rationals, base.WFSA and field_wfsa.WFSA: + . * ^+ reverse rename renumber "
